@@ -1950,9 +1950,9 @@ def _correspond(ctx):
     with tempfile.TemporaryDirectory(prefix='c03_') as tmpdir:
         for name, case in load_corpus():
             _correspond_case(ctx, case, 'corpus:' + name, tmpdir, True)
-        plan = [(gen_general, ctx.n(120, 3000)), (gen_grid, ctx.n(120, 3000)), (gen_edges, ctx.n(50, 1000)),
-                (gen_hunt, ctx.n(150, 4000)), (gen_outside, ctx.n(80, 1500)), (gen_shear, ctx.n(120, 2500)),
-                (gen_dense, ctx.n(15, 170)), (gen_fine, ctx.n(120, 3000)), (gen_nearcut, ctx.n(100, 2000)),
+        plan = [(gen_general, ctx.n(120, 2500)), (gen_grid, ctx.n(120, 3000)), (gen_edges, ctx.n(50, 1000)),
+                (gen_hunt, ctx.n(150, 4000)), (gen_outside, ctx.n(80, 1200)), (gen_shear, ctx.n(120, 2000)),
+                (gen_dense, ctx.n(15, 140)), (gen_fine, ctx.n(120, 3000)), (gen_nearcut, ctx.n(100, 2000)),
                 (_gen_crystal_small, ctx.n(12, 150)), (gen_narrowbin, ctx.n(40, 1000))]
         import time
         ph = ctx.extra.setdefault('phase_seconds', {})
@@ -1965,7 +1965,7 @@ def _correspond(ctx):
             ph['corr:' + gen.__name__] = round(time.time() - t0, 1)
             _checkpoint(ctx)
         t0 = time.time()
-        for it in range(ctx.n(40, 600)):
+        for it in range(ctx.n(40, 450)):
             run_sequence(ctx, rng, it, 'corr', tmpdir, trace=_trace)
         ph['corr:sequence'] = round(time.time() - t0, 1)
     # text format: hand-made rows (long lists, empty lists, many digits) through dump/load of the model only
@@ -2598,10 +2598,10 @@ def _search(ctx, broken):
     for name, case in load_corpus():
         _search_case(ctx, case, 'corpus', name, True)
     mult = 3 if broken else 1
-    plan = [('dense', gen_dense, ctx.n(40, 1500) * mult), ('shear', gen_shear, ctx.n(600, 12000) * mult),
-            ('hunt', gen_hunt, ctx.n(4000, 80000) * mult), ('general', gen_general, ctx.n(250, 8000) * mult),
+    plan = [('dense', gen_dense, ctx.n(40, 1500) * mult), ('shear', gen_shear, ctx.n(600, 10000) * mult),
+            ('hunt', gen_hunt, ctx.n(4000, 60000) * mult), ('general', gen_general, ctx.n(250, 8000) * mult),
             ('grid', gen_grid, ctx.n(250, 8000) * mult), ('edges', gen_edges, ctx.n(100, 3000) * mult),
-            ('fine', gen_fine, ctx.n(500, 15000) * mult), ('nearcut', gen_nearcut, ctx.n(400, 12000) * mult),
+            ('fine', gen_fine, ctx.n(500, 12000) * mult), ('nearcut', gen_nearcut, ctx.n(400, 10000) * mult),
             ('crystal', gen_crystal, ctx.n(60, 1000) * mult), ('narrowbin', gen_narrowbin, ctx.n(300, 6000) * mult)]
     with tempfile.TemporaryDirectory(prefix='c03_') as tmpdir:
         import time
